@@ -65,7 +65,7 @@ StepRun == /\ st = "run" /\ l <= Len(Tr.toks) /\ Ev.k = "refrun" /\ ~Tr.small
 StepEnd == /\ st = "run" /\ l = Len(Tr.toks) + 1
            /\ Tr.ended /\ Tr.sumok /\ Tr.err = "" /\ HeaderOK
            /\ pos = Tr.tlen
-           /\ Tr.bound >= 0 => lit <= Tr.bound            \* C16: literal bound predicted by the spec
+           /\ Tr.bounded => lit <= LiteralBoundOf(Tr.inserted, Tr.slack, Tr.blk, Tr.nedits)   \* C16
            /\ st' = "acc" /\ UNCHANGED <<t, l, pos, lit, div>>
 Step == StepLit \/ StepRef \/ StepRun \/ StepEnd
 
